@@ -10,7 +10,7 @@ import re as _re
 import z3
 
 from vf.runner import Unsupported
-from vf.pyvc.values import (V, VInt, VBool, NONE, VSeq, VBox, VTuple, VOpt, VObj, VPy, VFunc, VClass, DictVal, empty_dict, REC_CLASSES,
+from vf.pyvc.values import (V, VInt, VBool, NONE, VSeq, VBox, VTuple, VOpt, VObj, VPy, VFunc, VClass, VRef, VArr, DictVal, empty_dict, REC_CLASSES,
                             I, B, SeqI, wrap, unwrap, type_of, fresh, fresh_name, const_seq, lift, sort_of)
 
 # uninterpreted / axiomatised symbols ------------------------------------------------------------
@@ -134,6 +134,9 @@ class SpecLib:
         self.methods = {}
         self.models = {}
         self.reals = []
+        import weakref as _weakref
+        self.reals.append((lambda real, name: real is _weakref.ref,
+                           lambda real, name: VFunc("builtin", "weakref.ref", fn=lambda ex, a, kw: a[0])))
         self.rec_specs = {}
         self._pattern_ids = {}
         self._slice_fns = {}
@@ -326,6 +329,8 @@ class SpecLib:
             if not -len(obj.items) <= k < len(obj.items):
                 ex.raise_(IndexError, node=node)
             return obj.items[k]
+        if isinstance(obj, VArr):
+            return wrap(obj.ety, z3.Select(obj.t, unwrap("int", key)))
         if isinstance(obj, (VSeq,)) or (isinstance(obj, VBox) and obj.kind == "list"):
             if isinstance(key, VBool):
                 key = VInt(unwrap("int", key))
@@ -1018,6 +1023,13 @@ class SpecLib:
                 return self.make_list(ex, v.items)
             raise Unsupported("list(%r)" % (v,))
         B_["list"] = b_list
+
+        def b_allocated(ex, a, kw):
+            r = a[0]
+            if r is NONE:
+                return VBool(False)
+            return VBool(ex.allocated(r.t, old=ex.old_mode))
+        B_["allocated"] = b_allocated
 
         def b_set(ex, a, kw):
             if not a:
